@@ -2,6 +2,7 @@ package props
 
 import (
 	"context"
+	"errors"
 	"fmt"
 	"io"
 	"sync"
@@ -12,6 +13,8 @@ import (
 	"goatverif/svc"
 	"goatverif/wire"
 )
+
+var errRecvNeverEnds = errors.New("verif: receive loop still returning messages after 20000 iterations")
 
 // A small interpreter for client and handler stream programs, recording what
 // each side observes at the API boundary.
@@ -351,8 +354,11 @@ func (cr *ClientRun) interp(ops []Op, tag string, gates *Gates, sendSeq *int) {
 				cr.ArmRecv(s.Context())
 			}
 		case "recvAll":
-			for {
+			for guard := 0; ; guard++ {
 				b, err := s.Recv()
+				if guard > 20000 && err == nil {
+					err = errRecvNeverEnds // a receive loop that keeps "succeeding" without data ever ending
+				}
 				rec.add(Ev{Op: "recv", Data: b, Err: err})
 				if err != nil {
 					rec.mu.Lock()
